@@ -12,6 +12,10 @@
 //!  * no misparse: whenever a (mutated) argument vector is accepted, re-encoding the accepted
 //!    value and decoding again yields the same value (so the vector is an encoding of what it
 //!    was parsed to); a corrupted compressed blob is rejected or decodes to the original value;
+//!  * damaged range tokens: a plain SETCLUSTER vector / a task descriptor produced by the real encoder
+//!    from a well-formed value and then damaged in ONE range token (no '-', non-numeric, missing
+//!    start/end, garbage, empty, deleted) or cut inside a range list must be rejected; if it is
+//!    accepted with fewer ranges than declared: "a damaged range token was dropped …";
 //!  * C17_task_commit: on a real `MetaStore` with pending migrations, the descriptor served to the
 //!    source proxy (MIGRATING) and to the destination proxy (IMPORTING) of every pending migration,
 //!    taken through the INFOMGR string and the real coordinator parser, is accepted by the real
@@ -205,6 +209,8 @@ struct H {
     rstore: Option<MetaStore>,
     /// op lines of the current commit-leg case (the replay of a failure there)
     commit_ops: Vec<String>,
+    /// replay directive `#!reject`: the next decode line is a damaged encoding and must be refused
+    expect_reject: bool,
 }
 
 impl H {
@@ -666,6 +672,115 @@ fn meta_key_noflag(m: &ProxyClusterMeta) -> String {
     sp(&o)
 }
 
+// ------------------------------------------------------------------------------------------
+// damaged range tokens (seeded change C17-4): a message produced by the project's own encoder and
+// then damaged in ONE range token, or cut inside a range list, must be rejected.
+// ------------------------------------------------------------------------------------------
+const DROPPED_RANGE: &str = "a damaged range token was dropped: the message decoded to metadata with fewer ranges than declared";
+const DAMAGED_ACCEPTED: &str = "a message with a damaged range token (not of the form start-end) or cut inside a range list was accepted";
+
+/// `start-end` as the encoder writes it
+fn is_range_token(t: &str) -> bool {
+    let mut it = t.split('-');
+    match (it.next(), it.next(), it.next()) {
+        (Some(a), Some(b), None) => !a.is_empty() && !b.is_empty() && a.bytes().all(|c| c.is_ascii_digit()) && b.bytes().all(|c| c.is_ascii_digit()),
+        _ => false,
+    }
+}
+/// where a range token sits: which section, and under which tag
+fn range_token_class(args: &[String], i: usize) -> &'static str {
+    let peer = args.iter().take(i).any(|t| t == "PEER");
+    let mut j = i;
+    while j > 0 && is_range_token(&args[j - 1]) { j -= 1; }
+    // args[j-1] is the count, args[j-2] the tag word or the address
+    let tag = if j >= 2 { args[j - 2].as_str() } else { "" };
+    match (peer, tag) {
+        (false, "MIGRATING") => "local_migrating", (false, "IMPORTING") => "local_importing", (false, _) => "local_stable",
+        (true, "MIGRATING") => "peer_migrating", (true, "IMPORTING") => "peer_importing", (true, _) => "peer_stable",
+    }
+}
+/// one damaged version of a range token that is certainly not `start-end`
+fn damage_range_token(rng: &mut Rng, t: &str) -> (String, &'static str) {
+    let (a, b) = t.split_once('-').unwrap_or((t, ""));
+    match rng.below(7) {
+        0 => (format!("{}{}", a, b), "missing_dash"),
+        1 => { let mut c: Vec<char> = t.chars().collect(); let idx: Vec<usize> = c.iter().enumerate().filter(|(_, x)| x.is_ascii_digit()).map(|(i, _)| i).collect();
+               let k = *rng.pick(&idx); c[k] = *rng.pick(&['x', 'O', 'l', ' ', '.']); (c.into_iter().collect(), "non_numeric") }
+        2 => (format!("{}-", a), "missing_end"),
+        3 => (format!("-{}", b), "missing_start"),
+        4 => (format!("{}-{}", b.chars().rev().collect::<String>(), "x"), "reversed_garbage"),
+        5 => (format!("{}:{}", a, b), "wrong_separator"),
+        _ => (String::new(), "empty"),
+    }
+}
+fn total_ranges(m: &ProxyClusterMeta) -> usize {
+    m.get_local().values().chain(m.get_peer().values()).flat_map(|v| v.iter()).map(|sr| sr.get_range_list().get_ranges().len()).sum()
+}
+
+impl H {
+    /// plain SETCLUSTER vector of a well-formed meta: every range token damaged / deleted, and cuts inside range lists
+    fn damaged_ranges_cluster(&mut self, rng: &mut Rng, args: &[String], orig_ranges: usize, per_case: usize) {
+        let pos: Vec<usize> = (0..args.len()).filter(|&i| is_range_token(&args[i]) && i >= 4).collect();
+        if pos.is_empty() { return; }
+        // every class present gets at least one position, the rest is sampled
+        let mut chosen: Vec<usize> = vec![];
+        for cl in ["local_stable", "local_migrating", "local_importing", "peer_stable", "peer_migrating", "peer_importing"] {
+            let c: Vec<usize> = pos.iter().cloned().filter(|&i| range_token_class(args, i) == cl).collect();
+            if !c.is_empty() { chosen.push(*rng.pick(&c)); }
+        }
+        while chosen.len() < per_case.min(pos.len()) { let i = *rng.pick(&pos); if !chosen.contains(&i) { chosen.push(i); } }
+        for &i in chosen.iter() {
+            let cl = range_token_class(args, i);
+            let mut variants: Vec<(Vec<String>, String)> = vec![];
+            let (t2, kind) = damage_range_token(rng, &args[i]);
+            let mut v = args.to_vec(); v[i] = t2; variants.push((v, format!("{}", kind)));
+            let mut v = args.to_vec(); v.remove(i); variants.push((v, "deleted".to_string()));
+            // the message ends inside the range list
+            variants.push((args[..i].to_vec(), "cut_inside_list".to_string()));
+            for (v, kind) in variants {
+                self.s.stats.count(&format!("gen.damaged_range.{}.{}", cl, kind));
+                let (r, op, _) = self.op_parse(&v);
+                match &r {
+                    Some(Err(_)) => self.s.stats.count("out.damaged_range.rejected"),
+                    None => self.fail("panic in ProxyClusterMeta::parse", "", vec![op]),
+                    Some(Ok((m2, _))) => {
+                        let what = if total_ranges(m2) < orig_ranges { DROPPED_RANGE } else { DAMAGED_ACCEPTED };
+                        self.fail(what, "", vec![format!("# plain SETCLUSTER of a well-formed meta, range token #{} ({}) {}", i, cl, kind), "#!reject".to_string(), op]);
+                    }
+                }
+            }
+        }
+    }
+
+    /// task descriptor (INFOMGR string and token vector): every range token damaged / deleted / list cut
+    fn damaged_ranges_task(&mut self, rng: &mut Rng, toks: &[String], orig_ranges: usize) {
+        let pos: Vec<usize> = (0..toks.len()).filter(|&i| is_range_token(&toks[i]) && i >= 2).collect();
+        for &i in pos.iter() {
+            let mut variants: Vec<(Vec<String>, &'static str)> = vec![];
+            let (t2, kind) = damage_range_token(rng, &toks[i]);
+            if !t2.contains(' ') { let mut v = toks.to_vec(); v[i] = t2; variants.push((v, kind)); }
+            let mut v = toks.to_vec(); v.remove(i); variants.push((v, "deleted"));
+            variants.push((toks[..i].to_vec(), "cut_inside_list"));
+            for (v, kind) in variants {
+                self.s.stats.count(&format!("gen.damaged_range.task.{}", kind));
+                let (r, op) = self.op_infomgr(&El::B(v.join(" ").into_bytes()));
+                let (r2, op2) = self.op_taskfs(&v);
+                for (res, o) in [(r, op), (r2, op2)] {
+                    match &res {
+                        Some(None) => self.s.stats.count("out.damaged_range.task.rejected"),
+                        None => self.fail("panic in MigrationTaskMeta::from_strings", "", vec![o]),
+                        Some(Some(t)) => {
+                            let n = t.slot_range.get_range_list().get_ranges().len();
+                            let what = if n < orig_ranges { DROPPED_RANGE } else { DAMAGED_ACCEPTED };
+                            self.fail(what, "", vec![format!("# task descriptor, range token #{} {}", i, kind), "#!reject".to_string(), o]);
+                        }
+                    }
+                }
+            }
+        }
+    }
+}
+
 /// the description with every range list passed through the real `RangeList::new` (= `compact`):
 /// the value both wire forms are specified to denote
 fn compacted_desc(d: &DMeta) -> DMeta {
@@ -822,6 +937,12 @@ impl H {
                 self.check_accepted_cluster(&r, &orig_key, &op, "duplicate");
             }
         }
+        // targeted: one damaged range token / a cut inside a range list must be rejected
+        if wf {
+            let orig_ranges = total_ranges(&m_real);
+            let per_case = if budget > 30 { 10 } else { 6 };
+            self.damaged_ranges_cluster(rng, &args, orig_ranges, per_case);
+        }
         // corruptions of the compressed vector
         if let Some(cargs) = cargs_saved {
             for _ in 0..4 {
@@ -972,6 +1093,10 @@ impl H {
                     }
                 }
             }
+        }
+        if wf && spacefree {
+            let n = real.slot_range.get_range_list().get_ranges().len();
+            self.damaged_ranges_task(rng, &toks, n);
         }
         // token-level and character-level corruptions of the INFOMGR string
         for i in 0..toks.len() {
@@ -1366,6 +1491,7 @@ impl H {
     fn replay_line(&mut self, line: &str) {
         let toks: Vec<String> = line.split(' ').map(|s| s.to_string()).collect();
         let rest = toks.get(1..).unwrap_or(&[]).to_vec();
+        let expect_reject = std::mem::replace(&mut self.expect_reject, false);
         let done: Option<()> = (|| {
             match toks.first()?.as_str() {
                 "case" => { self.s.case(); self.rstore = None; }
@@ -1424,6 +1550,7 @@ impl H {
                 "parse" => {
                     let v = strings_of(skip_dec(&rest)?)?;
                     let (r, op, _) = self.op_parse(&v);
+                    if expect_reject { if let Some(Ok(_)) = &r { self.fail(DAMAGED_ACCEPTED, "", vec!["#!reject".to_string(), op.clone()]); } }
                     self.check_accepted_cluster(&r, "", &op, "replay");
                 }
                 "fromresp" => {
@@ -1442,8 +1569,15 @@ impl H {
                     self.check_accepted_repl(&r, &op);
                 }
                 "taskenc" => { let mut c = Cur::new(&rest); let d = p_task(&mut c)?; self.op_taskenc(&d)?; }
-                "infomgr" => { let el = p_el(rest.first()?)?; let (r, op) = self.op_infomgr(&el); self.check_accepted_task(&r, &op); }
-                "taskfs" => { let v = strings_of(&rest)?; self.op_taskfs(&v); }
+                "infomgr" => {
+                    let el = p_el(rest.first()?)?; let (r, op) = self.op_infomgr(&el);
+                    if expect_reject { if let Some(Some(_)) = &r { self.fail(DAMAGED_ACCEPTED, "", vec!["#!reject".to_string(), op.clone()]); } }
+                    self.check_accepted_task(&r, &op);
+                }
+                "taskfs" => {
+                    let v = strings_of(&rest)?; let (r, op) = self.op_taskfs(&v);
+                    if expect_reject { if let Some(Some(_)) = &r { self.fail(DAMAGED_ACCEPTED, "", vec!["#!reject".to_string(), op]); } }
+                }
                 "switchenc" => { let mut c = Cur::new(&rest); let d = p_switch(&mut c)?; self.op_switchenc(&d)?; }
                 "switchfs" => { let v = strings_of(&rest)?; self.op_switchfs(&v); }
                 "switchcmd" => { let cmd = p_cmd(&rest)?; self.op_switchcmd(&cmd); }
@@ -1470,11 +1604,12 @@ fn main() {
     std::panic::set_hook(Box::new(|_| {}));
     let args = parse_args();
     let mut rng = Rng::new(args.seed);
-    let mut h = H { s: Streams::new(&args), finding_recorded: Default::default(), rstore: None, commit_ops: vec![] };
+    let mut h = H { s: Streams::new(&args), finding_recorded: Default::default(), rstore: None, commit_ops: vec![], expect_reject: false };
     if let Some(p) = &args.replay {
         let lines = read_lines(p);
         if !lines.iter().any(|l| l.starts_with("case ")) { h.s.case(); }
         for l in lines {
+            if l.starts_with("#!reject") { h.expect_reject = true; continue; }
             if l.starts_with('#') { continue; }
             h.replay_line(&l);
         }
